@@ -75,13 +75,7 @@ func isValidatorNil(a Atom) bool {
 	if c.Op != "call" || c.Name != "dynamic" || len(c.Args) != 2 {
 		return false
 	}
-	found := false
-	c.Args[0].Walk(func(x *Expr) bool {
-		if x.Op == "global" && strings.HasSuffix(x.Name, ".urlPrefixValidators") {
-			found = true
-		}
-		return true
-	})
+	found := isValidatorCallee(curProgram, c.Args[0])
 	arg := c.Args[1]
 	isVal := arg.Op == "field" && arg.Name == "value"
 	return found && isVal
@@ -211,7 +205,7 @@ func checkURLPrefixChains(p *Program, r *Report) {
 			r.Check(sameButLast(fns, want) && okSym, rule, c+":no-prefix", pos, "without a static prefix: [context sanitizer, NormalizeURL, HTML escaper]",
 				fmt.Sprintf("chain without a static prefix is %v, expected [context sanitizer, NormalizeURL, HTML escaper]", fns))
 		case nonEmptyPrefix:
-			hasValidator := guardHas(alt.Guards, func(a Atom) bool { return isValidatorNil(a) && a.Pol })
+			hasValidator := guardHas(alt.Guards, func(a Atom) bool { return (isValidatorNil(a) || isValidatorWrapperNil(ci.CE.pv, a)) && a.Pol })
 			notAmbig := guardHas(alt.Guards, func(a Atom) bool { return isAmbiguousField(a) && !a.Pol })
 			if !hasValidator || !notAmbig {
 				var miss []string
@@ -304,4 +298,27 @@ func scSetOfPredicate(f *ssa.Function) map[int64]bool {
 		}
 	}
 	return out
+}
+
+// isValidatorWrapperNil: (== f(…) nil) where f is a function of the package that returns only an error and
+// returns nil only on paths on which the looked-up prefix validator returned nil.
+func isValidatorWrapperNil(pv *Prov, a Atom) bool {
+	e := a.E
+	if e.Op != "binop" || e.Name != "==" || e.Args[1].Op != "const" || e.Args[1].Const != nil {
+		return false
+	}
+	c := e.Args[0]
+	if c.Op != "call" || c.Fn == nil || c.Fn.Blocks == nil || c.Fn.Signature.Results().Len() != 1 || !isErrorType(c.Fn.Signature.Results().At(0).Type()) {
+		return false
+	}
+	n := 0
+	for _, ret := range Returns(c.Fn) {
+		if k, ok := ret.Results[0].(*ssa.Const); ok && k.Value == nil {
+			n++
+			if !allPathsGuard(pv, ret.Block(), func(x Atom) bool { return isValidatorNil(x) && x.Pol }, 0) {
+				return false
+			}
+		}
+	}
+	return n > 0
 }
